@@ -584,6 +584,10 @@ func (e *Env) evalCall(c *CCall) TVal {
 	if c.Fn == "owned" {
 		// ownership of a result graph: registered at call sites (collectFresh); as a formula
 		// it only says the pointer is a new allocation
+		if tv := e.Eval(c.Args[0]); tv.T != nil && tv.V.IsComp() {
+			// a struct value: the region registered at the call site carries the meaning
+			return mathBool("true")
+		}
 		return e.evalCall(&CCall{Fn: "fresh", Args: c.Args})
 	}
 	argT := func(i int) Term {
@@ -735,6 +739,18 @@ func (e *Env) evalCall(c *CCall) TVal {
 				return tv
 			}
 		}
+		// an address-taken local of the function itself
+		if id, ok := c.Args[0].(*CIdent); ok {
+			for _, blk := range e.x.fn.Blocks {
+				for _, in := range blk.Instrs {
+					if a, ok := in.(*ssa.Alloc); ok && a.Comment == id.Name {
+						if v, ok := e.x.vals[a]; ok {
+							return TVal{v, a.Type()}
+						}
+					}
+				}
+			}
+		}
 		e.errorf("ref(): not a captured variable: %s", cexprString(c.Args[0]))
 		return mathInt("0")
 	case "typeid":
@@ -742,6 +758,16 @@ func (e *Env) evalCall(c *CCall) TVal {
 			return mathInt(Lit(int64(e.x.eng.typeIDByName(s.V))))
 		}
 		e.errorf("typeid expects a string literal")
+		return mathInt("0")
+	case "deref":
+		// deref(p): the value a pointer refers to (in the state of the expression)
+		tv := e.Eval(c.Args[0])
+		if tv.T != nil {
+			if pt, ok := tv.T.Underlying().(*types.Pointer); ok && !tv.V.IsComp() {
+				return TVal{e.load(tv.V.T, pt.Elem()), pt.Elem()}
+			}
+		}
+		e.errorf("deref(): not a pointer: %s", cexprString(c.Args[0]))
 		return mathInt("0")
 	case "asptr", "ptrtypeid":
 		// asptr(v, "T"): the address v seen as a *T (T a named type of the function's package);
